@@ -667,6 +667,10 @@ fn check(world: &'static dyn World, a: &Args) -> i32 {
             "rule": p.rule,
             "samples": samples,
             "distinct_traces": traces.len(),
+            "states": states.len(),
+            "exhaustive": false,
+            "trusted_base": p.stub,
+            "explanation": "Deterministic simulation with fault injection: every run is decided by one seed (workload, schedule, delays, faults, crash points); the property is checked as invariants during the run and over the recorded history; violations are minimised on the choice tape and replay exactly. Sampled, not exhaustive: a clean batch is evidence over the runs counted here. `states` counts distinct abstract-state signatures reached (world-specific), `distinct_traces` distinct decoded traces (interleavings + fault placements).",
             "distinct_abstract_states": states.len(),
             "runs_per_hour": if wall > 0.0 { (evaluations as f64 / wall * 3600.0) as u64 } else { 0 },
             "simulated_seconds": (sim_ns as f64) / 1e9,
